@@ -65,6 +65,7 @@ type hist struct {
 	blocksInEpoch int
 	blockNo       int
 	nReorgs       int
+	forced        []*txRec       // when non-nil: exactly these submissions for the coming block
 	graphSent     map[int]uint64 // edge index -> height of the last DelegateTx submission
 	flagsAt       map[uint64]int
 	txsAt         map[uint64][]string
@@ -83,6 +84,7 @@ type txRec struct {
 type schedule []map[string]string
 
 type scenCfg struct {
+	relQuiet   bool     // relationship scenarios: no random transactions, everybody stays validated
 	graph      [][2]int // delegation graph scenario (edges delegator -> delegatee over keys 1..4), exported by TLC from EpochLoop.tla
 	heavy      bool
 	reorgs     bool
@@ -218,8 +220,8 @@ func (h *hist) mkTx(from int, typ types.TxType, to *common.Address, amount *big.
 	}
 	maxFee := sim.Dna(int64(60+h.rnd.Intn(100)), 1)
 	var tips *big.Int
-	if h.rnd.Intn(6) == 0 {
-		tips = sim.Dna(int64(1+h.rnd.Intn(3)), 1)
+	if h.rnd.Intn(4) == 0 {
+		tips = sim.Dna(int64(1+h.rnd.Intn(30)), 1)
 	}
 	tx := h.w.Tx(sim.TxSpec{From: from, To: to, Type: typ, Amount: amount, MaxFee: maxFee, Tips: tips, Nonce: uint32(nonce), Epoch: uint16(e), Payload: payload})
 	h.txSeq++
@@ -318,6 +320,14 @@ func (h *hist) graphBuilt() bool {
 }
 
 func (h *hist) genTxs() []*txRec {
+	if h.forced != nil {
+		f := h.forced
+		h.forced = nil
+		return f
+	}
+	if h.cfg.relQuiet {
+		return nil
+	}
 	if h.cfg.graph != nil {
 		return h.graphTxs()
 	}
@@ -627,7 +637,7 @@ func (h *hist) block() bool {
 	height := h.ref.n.Chain.Head.Height() + 1
 	epochBlockPre := h.ref.n.App.State.EpochBlock()
 	pre := h.prevLed
-	empty := noProposer || (h.cfg.graph == nil && h.rnd.Intn(9) == 0)
+	empty := noProposer || (h.cfg.graph == nil && !h.cfg.relQuiet && h.rnd.Intn(9) == 0)
 	if st := h.ref.n.App.State; st.ValidationPeriod() == state.AfterLongSessionPeriod && st.CanCompleteEpoch() {
 		// the coming block finishes the validation: the per-identity results (a stand-in for the
 		// answers recorded in blocks) are handed to every replica's ceremony before anybody evaluates
@@ -1015,6 +1025,12 @@ func (h *hist) injectEpoch(height uint64) {
 		if addr == h.w.Addrs[0] && !ns.NewbieOrBetter() {
 			ns = state.Verified // keep the god identity able to propose
 		}
+		if h.cfg.relQuiet && id.State.NewbieOrBetter() {
+			ns = id.State
+			if id.State == state.Newbie {
+				ns = state.Verified
+			}
+		}
 		if h.cfg.graph != nil && id.State == state.Candidate {
 			ns = state.Newbie // every member of the delegation graph is validated in the same epoch
 			o.Birthday = s.Epoch() + 1
@@ -1051,6 +1067,7 @@ func main() {
 	epochs := flag.Bool("epochs", true, "drive validation periods and epoch transitions")
 	schedFile := flag.String("sched", "", "history-shape schedules exported by TLC (json lines)")
 	replays := flag.Bool("replays", false, "offer crafted blocks that re-include / mis-sign transactions")
+	relFile := flag.String("rel", "", "relationship attempt paths exported by TLC from Relations.tla (json lines)")
 	graphFile := flag.String("graphs", "", "delegation graphs exported by TLC from EpochLoop.tla (json lines); one history per graph")
 	heavy := flag.Bool("identity-heavy", false, "bias the generator towards identity-changing events")
 	reorgs := flag.Bool("reorgs", false, "the network switches forks now and then (real ResetTo on every replica)")
@@ -1079,6 +1096,11 @@ func main() {
 	w := tr.Create(*out)
 	defer w.Close()
 	seed := tr.Seed()
+	if *relFile != "" {
+		paths, blocks := runRelations(*relFile, seed, w)
+		fmt.Fprintf(os.Stderr, "histories=%d blocks=%d refused=0 lines=%d\n", paths, blocks, w.N)
+		return
+	}
 	blocks, refused := 0, 0
 	var graphs [][][2]int
 	if *graphFile != "" {
